@@ -208,6 +208,53 @@ def wall_case(spec):
     return out
 
 
+
+def multiwall_case(spec):
+    """one set_wall_brdf call for several walls that share a normal but have different up vectors
+    (and walls with different normals): every wall must get ITS OWN frame"""
+    import sparrowpy as sp
+    rng = np.random.default_rng([spec["seed"], 4000 + spec["idx"]])
+    out = {"evaluations": 1, "mismatches": [], "prop_failures": [], "dist": {"set_wall_brdf_shared_normal": 1}, "nontrivial": []}
+    n, u = rand_frame(rng, spec["idx"] if spec["idx"] % 2 else 24 + spec["idx"])
+    v = np.cross(n, u)
+    nw = int(rng.integers(2, 5))
+    pts, nors, ups = [], [], []
+    for k in range(nw):
+        if k == nw - 1 and nw > 2:
+            nk, uk = u, n                      # a wall with another normal in the same call
+        else:
+            ang = [0.0, np.pi / 2, float(rng.uniform(0.2, 2.8)), np.pi][k % 4]
+            nk, uk = n, np.cos(ang) * u + np.sin(ang) * v
+        vk = np.cross(nk, uk)
+        o = rng.uniform(-2, 2, 3) + 3.0 * k * uk
+        pts.append(np.array([o, o + uk, o + uk + vk, o + vk]))
+        nors.append(nk)
+        ups.append(uk)
+    pts, nors, ups = np.array(pts), np.array(nors), np.array(ups)
+    radi = sp.DirectionalRadiosityFast(pts, nors, ups, pts, nw, np.arange(nw))
+    d = rand_dirs(rng, int(rng.integers(3, 12)))
+    c = pf.Coordinates(d[:, 0], d[:, 1], d[:, 2])
+    radi.set_wall_brdf(list(range(nw)), pf.FrequencyData(np.ones((len(d), len(d), 1)), [100.0]), c, c.copy())
+    tag = dict(multiwall=True, n_walls=nw, seed=spec["seed"], idx=spec["idx"])
+    out["sample"] = tag
+    for k in range(nw):
+        tok = Tok().cmd("q_walldirs").vec(nors[k]).vec(ups[k]).vecs(d)
+        mod = floats(run_driver(tok)[0][1], (-1, 3))
+        for name, got in (("incoming", radi._brdf_incoming_directions[k].cartesian),
+                          ("outgoing", radi._brdf_outgoing_directions[k].cartesian)):
+            out["traces"] = out.get("traces", 0) + 1
+            if np.abs(got - mod).max() > 1e-12:
+                out["mismatches"].append(dict(stage="set_wall_brdf %s directions of wall %d" % (name, k), case=tag,
+                                              what="max abs diff %.3e" % np.abs(got - mod).max()))
+            # the statement itself: rigid image of the reference set under (+z -> normal, +x -> up)
+            M = np.stack([ups[k], np.cross(nors[k], ups[k]), nors[k]], axis=1)
+            if np.abs(got - d @ M.T).max() > 1e-12:
+                out["prop_failures"].append(dict(test="own_wall_frame", wall=k, which=name, case=tag,
+                                                 what="wall %d: %s directions are not the reference set carried by the rotation "
+                                                      "+z -> its normal, +x -> its own up vector" % (k, name)))
+    out["nontrivial"].append(case_hash(tag))
+    return out
+
 def run(res):
     quick = res.tier == "quick"
     for r in fw.run_parallel(frame_case, [dict(seed=res.seed, idx=i) for i in range(60 if quick else 600)], workers=8):
@@ -215,6 +262,8 @@ def run(res):
     for r in fw.run_parallel(lookup_case, [dict(seed=res.seed, idx=i) for i in range(200 if quick else 4000)], workers=8):
         res.absorb(r)
     for r in fw.run_parallel(wall_case, [dict(seed=res.seed, idx=i) for i in range(20 if quick else 200)], workers=8):
+        res.absorb(r)
+    for r in fw.run_parallel(multiwall_case, [dict(seed=res.seed, idx=i) for i in range(20 if quick else 200)], workers=8):
         res.absorb(r)
     for r in fw.run_parallel(scene_case, [dict(seed=res.seed, idx=i, max_patches=(16 if quick else 30))
                                           for i in range(8 if quick else 80)]):
@@ -237,5 +286,7 @@ def replay(res, payload):
             res.absorb(lookup_case(sp_))
         elif case.get("wall"):
             res.absorb(wall_case(sp_))
+        elif case.get("multiwall"):
+            res.absorb(multiwall_case(sp_))
         else:
             res.absorb(scene_case(sp_))
